@@ -220,7 +220,20 @@ func H15_errors() {
 	var v interface{}
 	wantErr := true
 	var nilp *hLeaf
-	switch sv.Choice("case", 12) {
+	switch sv.Choice("case", 18) {
+	case 12: // typed nil containers are nil, not empty containers
+		v = []int(nil)
+	case 13:
+		v = map[string]int(nil)
+	case 14:
+		v = [][]int{{1}, nil}
+	case 15:
+		v = map[string][]string{"xs": nil}
+	case 16:
+		v = [2][]float64{{1}, nil}
+	case 17: // their non-nil empty twins convert
+		v = map[string][]string{"xs": {}}
+		wantErr = false
 	case 0:
 		v = nil
 	case 1:
@@ -442,4 +455,58 @@ func H15_mixed() {
 		sv.Reach("consistent")
 		sv.Assert("accepted", err == nil && r != nil)
 	}
+}
+
+type hTimes struct {
+	At   time.Time            `yae:"at"`
+	PT   *time.Time           `yae:"pt,maybe"`
+	Ts   []*time.Time         `yae:"ts"`
+	ByT  map[time.Time]int    `yae:"byt"`
+	ByPT map[*time.Time]string `yae:"bypt"`
+}
+
+// H15_times: instants keep their full resolution as values and as map keys
+// (two keys one nanosecond apart are two entries), and a pointer to an
+// instant has the type of an instant whether it is nil (declared optional),
+// set, or only the element type of an empty slice.
+func H15_times() {
+	base := time.Unix(1700000000, 0)
+	t1, t2 := base, base.Add(time.Nanosecond)
+	t3 := base.Add(time.Second)
+	h := hTimes{At: t1, Ts: []*time.Time{}, ByT: map[time.Time]int{t1: 1, t2: 2, t3: 3}, ByPT: map[*time.Time]string{}}
+	if sv.Choice("pt-present", 2) == 1 {
+		h.PT = &t2
+	}
+	if sv.Choice("ts-filled", 2) == 1 {
+		h.Ts = []*time.Time{&t1, &t3}
+	}
+	sv.MapOrder(1)
+	var v *val.Val
+	var err error
+	cls := sv.Outcome(func() { v, err = conv.ValOf(h) })
+	sv.MapOrder(0)
+	sv.Assert("conversion-does-not-panic", cls == "ok")
+	sv.Assert("converts", err == nil)
+	if cls != "ok" || err != nil {
+		return
+	}
+	want := ObjT([]string{"at", "pt", "ts", "byt", "bypt"}, []*types.Type{tTime, types.Maybe(tTime), types.List(tTime), types.Map(tTime, tNum), types.Map(tTime, tStr)})
+	if !RefTypeEq(v.Type, want) {
+		sv.Logf("type %s, expected %s", v.Type.String(), want.String())
+	}
+	sv.Assert("type-is-the-same-for-every-value-of-the-go-type", RefTypeEq(v.Type, want))
+	sv.Assert("well-formed", RefWellTyped(v, v.Type) == "")
+	byt, _ := v.Obj().Get("byt")
+	ok := byt != nil && byt.Type.Kind == types.KMap && len(byt.Map().V) == 3
+	sv.Assert("map-entries-with-keys-a-nanosecond-apart-are-kept-apart", ok)
+	if ok {
+		for _, kv := range []struct {
+			k time.Time
+			w float64
+		}{{t1, 1}, {t2, 2}, {t3, 3}} {
+			x, found := byt.Map().Get(val.Time(kv.k))
+			sv.Assert("each-instant-selects-its-own-entry", found && x.Num().V == kv.w)
+		}
+	}
+	sv.Reach("converted")
 }
